@@ -154,13 +154,13 @@ CHECKS = {
             'with the same bindings), breadth-first closure of the reachable canonical heap fingerprints (each expansion '
             'replayed in a forked child), repetition ladders for retained traceback/frame objects, and exhaustive '
             'host-value immutability sweeps; ' + K1,
-            'All histories of <= 2/3 operations over a 35-operation alphabet (28 residue-leaving formulas incl. failing '
+            'All histories of <= 2/3 operations over a 37-operation alphabet (30 residue-leaving formulas incl. failing '
             'ones that read cells first, raising callbacks, reversed ranges and equal-but-differently-typed values; rebinding; listener on/off; the host changing every cell and range value between two evaluations) '
-            'are replayed in a PRISTINE process (fork server started before anything is evaluated) and followed by 23 '
+            'are replayed in a PRISTINE process (fork server started before anything is evaluated) and followed by 25 '
             'probes, each compared with its outcome as the only evaluation of a pristine process, with debug off and on; the '
             'set of heap states reachable by parse operations is searched to a fixpoint (~150 states on the current tree), '
             'which decides the unbounded-repetition clause; interpreter-wide settings (recursion limit, int/str digit limit, locale, time zone, environment ...) are compared before and after every evaluation; results that are lists are mutated by the host and the formula evaluated again (no aliasing of caches); every documented function x '
-            'arity <= 2/3 x list-valued argument position is checked for deep-equality of host values before/after.',
+            'arity <= 2/3 x list-valued argument position is checked for deep-equality of host values before/after. The clock is an environment answer: formulas without NOW / TODAY over 22 date texts (complete, without a day, a time of day only, without a year) give one outcome under 4 clocks.',
             'Trusted: the heap fingerprint (stdlib objects opaque); fork() to restore a state; clock/random seams. PLY '
             'leftovers are part of the state key, not of the oracle.', 'DESIGN.md §5 C02'),
     'C03': ('stateless schedule exploration of two real threads (one parser each) under a cooperative scheduler with '
